@@ -9,7 +9,8 @@ set -u
 ROOT=$(cd "$(dirname "$0")/.." && pwd)
 QUIET=0
 [ "${1:-}" = "-q" ] && QUIET=1
-WORK=$(mktemp -d "${TMPDIR:-/tmp}/simtest.XXXXXX")
+mkdir -p "$ROOT/.cache"
+WORK=$(mktemp -d "$ROOT/.cache/simtest.XXXXXX")
 trap 'rm -rf "$WORK"' EXIT
 
 BIN=$(cd "$ROOT" && python3 -c "
